@@ -57,46 +57,13 @@ def run(ctx, report: Report) -> None:
     pmod = src.mod('css_parser')
 
     # ---- R1 --------------------------------------------------------------------------------------------
-    r1 = report.rule('C01-R1', 'the document object is never matched as a parent/ancestor element', floor=1)
-    n_parent_sites = 0
-    for q, fn in mmod.functions.items():
-        parents_vars = set()
-        for st in walk_no_nested(fn):
-            if isinstance(st, ast.Assign) and isinstance(st.value, ast.Call) and call_name(st.value).endswith('get_parent') \
-                    and isinstance(st.targets[0], ast.Name):
-                parents_vars.add(st.targets[0].id)
-        for c in [n for n in walk_no_nested(fn) if isinstance(n, ast.Call)]:
-            if not call_name(c).endswith('match_selectors') or not c.args:
-                continue
-            a0 = c.args[0]
-            tainted = (isinstance(a0, ast.Name) and a0.id in parents_vars) or (
-                isinstance(a0, ast.Call) and call_name(a0).endswith('get_parent'))
-            if not tainted:
-                continue
-            n_parent_sites += 1
-            var = unparse(a0)
-            guarded = False
-            cur, child = mmod.parents.get(c), c
-            while cur is not None and cur is not fn:
-                if isinstance(cur, (ast.While, ast.If)) and any(child is x or child in ast.walk(x) for x in cur.body):
-                    conj = cur.test.values if isinstance(cur.test, ast.BoolOp) and isinstance(cur.test.op, ast.And) else [cur.test]
-                    for t in conj:
-                        if norm_atom(t) == (f'self.is_doc({var})', False):
-                            guarded = True
-                child, cur = cur, mmod.parents.get(cur)
-            r1.instance({'site': f'css_match.{q}: {unparse(c)}', 'value_from': 'get_parent', 'guarded_by_not_is_doc': guarded},
-                        key=f'{q}|{unparse(c)}|{c.lineno - fn.lineno}')
-            r1.obligation(guarded)
-            if not guarded:
-                r1.violation(f'css_match.{q} {unparse(c)} unguarded', mmod.where(c),
-                             f'{q}: `{unparse(c)}` evaluates selectors on a value obtained from get_parent() without excluding '
-                             f'the BeautifulSoup document object: "* > html" / ":not(p) > html" match the root element')
-    if n_parent_sites < 2:
-        raise AnalysisError('fewer than two parent -> match_selectors flows found (anchor vanished)')
+    r1 = report.rule('C01-R1', 'the document object is never matched as a parent/ancestor element', floor=26)
+    from .sem import relations_table
+    relations_table(ctx, r1)
 
     # ---- R2 + R6: attribute operator patterns (extracted by partial evaluation of parse_attribute_selector) ----------
-    r2 = report.rule('C01-R2', 'an empty operand of ^= $= *= ~= designates nothing', floor=46)
-    r6 = report.rule('C01-R6', 'attribute operator patterns equal the operator definitions (as languages)', floor=30)
+    r2 = report.rule('C01-R2', 'an empty operand of ^= $= *= ~= designates nothing', floor=23)
+    r6 = report.rule('C01-R6', 'attribute operator patterns equal the operator definitions (as languages)', floor=74)
     from .sem import attribute_patterns
     rows = attribute_patterns(ctx)
     report.analysed['attribute_pattern_rows'] = len(rows)
@@ -168,7 +135,7 @@ def run(ctx, report: Report) -> None:
                                  f'{desc["selector"]} ({which}, flags={fl}): value {res[1]!r} - {side}')
 
     # ---- R3 --------------------------------------------------------------------------------------------
-    r3 = report.rule('C01-R3', 'tokenizer, dispatch and regex-group tables agree', floor=27)
+    r3 = report.rule('C01-R3', 'tokenizer, dispatch and regex-group tables agree', floor=13)
     _, ps = src.func('css_parser.CSSParser.parse_selectors')
     token_names = [r.name.split(':', 1)[1] for r in inv.regexes if r.kind in ('token', 'special-token')]
     dispatch = {}        # key -> list of handler method names called in that branch
@@ -265,7 +232,7 @@ def run(ctx, report: Report) -> None:
     r3.instance({'complex_pseudo': sorted(complex_names)}, key='complex', nontrivial=False)
 
     # ---- R4 --------------------------------------------------------------------------------------------
-    r4 = report.rule('C01-R4', 'combinator tables agree between parser and matcher', floor=2)
+    r4 = report.rule('C01-R4', 'combinator tables agree between parser and matcher', floor=1)
     comb = inv.by_name('token:combine')
     s = rx.System()
     G = s.add('rel', comb.pattern, comb.flags, group='relation')
@@ -291,27 +258,10 @@ def run(ctx, report: Report) -> None:
         r4.violation('combinator sets differ', comb.where,
                      f'the parser can store rel_type values {sorted(parser_set)}; the matcher knows {sorted(matcher_set)}: '
                      f'{sorted(parser_set ^ matcher_set)} never match')
-    for fn_name, prefix in (('match_past_relations', ''), ('match_future_relations', ':')):
-        _, f = src.func(f'css_match.CSSMatch.{fn_name}')
-        used = {n.comparators[0].id for n in ast.walk(f) if isinstance(n, ast.Compare) and isinstance(n.comparators[0], ast.Name)
-                and n.comparators[0].id.startswith('REL_')}
-        need = {k for k, v in rel_consts.items() if v.startswith(':') == bool(prefix)}
-        r4.instance({'function': fn_name, 'constants_compared': sorted(used), 'expected': sorted(need)}, key=fn_name)
-        r4.obligation(used == need)
-        if used != need:
-            r4.violation(f'css_match.CSSMatch.{fn_name} combinators', mmod.where(f),
-                         f'{fn_name} has branches for {sorted(used)}, expected {sorted(need)}')
-    _, mr = src.func('css_match.CSSMatch.match_relations')
-    ok = any(isinstance(c, ast.Call) and isinstance(c.func, ast.Attribute) and c.func.attr == 'startswith'
-             and c.args and inv.folder.try_ev('css_match', c.args[0], default=None) == ':' for c in ast.walk(mr))
-    r4.instance({'match_relations': 'routes on the ":" prefix', 'ok': ok}, key='route')
-    r4.obligation(ok)
-    if not ok:
-        r4.violation('css_match.CSSMatch.match_relations routing', mmod.where(mr),
-                     'match_relations no longer routes forward (":"-prefixed) combinators to match_future_relations')
+    # what each of these combinators designates is decided by the relations table of R1, whatever the dispatch looks like
 
     # ---- R5 (decision tables by partial evaluation) ------------------------------------------------------
-    r5 = report.rule('C01-R5', 'every IR field is consulted, conjunctively (decision tables)', floor=40)
+    r5 = report.rule('C01-R5', 'every IR field is consulted, conjunctively (decision tables)', floor=49)
     from .sem import helper_tables, match_selectors_table
     match_selectors_table(ctx, r5)
     helper_tables(ctx, r5)
@@ -321,7 +271,7 @@ def run(ctx, report: Report) -> None:
     from .sem import identity_table
     identity_table(ctx, r5)
 
-    r7 = report.rule('C01-R7', 'a comma resets every piece of per-alternative parser state (parsed token sequences)', floor=8)
+    r7 = report.rule('C01-R7', 'a comma resets every piece of per-alternative parser state (parsed token sequences)', floor=5)
     from .sem import comma_tables
     comma_tables(ctx, r7)
     from .sem import single_token_table
